@@ -109,11 +109,11 @@ func checkC20(r *core.Run) {
 				slot := fmt.Sprintf("store Node.Role := %s#%d", vt, k)
 				if vt != super {
 					// a non-constant role value: must not be able to carry the super role unguarded
-					r.Violate("G-promote", core.Key("G-promote", r.P.Name(f), slot), r.P.Pos(st.Pos()), "Node.Role is assigned a value that is neither the normal nor the super constant: promotion cannot be checked")
+					r.Violate("G-promote", core.Key("G-promote", r.KeyName(f), slot), r.P.Pos(st.Pos()), "Node.Role is assigned a value that is neither the normal nor the super constant: promotion cannot be checked")
 					continue
 				}
 				for _, c := range clauses {
-					key := core.Key("G-promote", r.P.Name(f), slot, c.Name)
+					key := core.Key("G-promote", r.KeyName(f), slot, c.Name)
 					ok, w := requireUpward(r, f, b, c.Atoms, 0, nil)
 					if ok {
 						r.Discharge("G-promote", key, r.P.Pos(st.Pos()), "guard holds on every path to the promotion, in this function or at every call site up the chain: "+c.Atoms[0].Desc)
@@ -298,7 +298,7 @@ func ruleNoStaleCheck(r *core.Run) {
 			}
 			n++
 			rec := addrRoot(call.Call.Args[2]) // &node
-			key := core.Key("G-promote", r.P.Name(f), fmt.Sprintf("no requirement field rewritten after CheckNodeShare#%d", i+1))
+			key := core.Key("G-promote", r.KeyName(f), fmt.Sprintf("no requirement field rewritten after CheckNodeShare#%d", i+1))
 			bad := ""
 			isDep := func(ins ssa.Instruction) bool {
 				st, ok := ins.(*ssa.Store)
